@@ -394,6 +394,9 @@ func (e Expr) String() string {
 
 // ExprCase is a nested expression with its leaf words and closing prices.
 type ExprCase struct {
+	// Share: identical sub-expressions are ONE instance used at several places of the tree (a
+	// decorator that keeps per-run state on its receiver mixes up the computations)
+	Share  bool      `json:"share,omitempty"`
 	Expr   Expr      `json:"expr"`
 	Words  [][]int   `json:"words"`
 	Closes []float64 `json:"closes"`
@@ -414,18 +417,29 @@ func genExpr(t *rapid.T, leaves, depth int) Expr {
 		n = rapid.IntRange(1, 3).Draw(t, "k")
 	}
 	for i := 0; i < n; i++ {
+		if i > 0 && rapid.IntRange(0, 3).Draw(t, "same_as_first") == 0 {
+			e.Kids = append(e.Kids, e.Kids[0]) // the same sub-expression twice
+			continue
+		}
 		e.Kids = append(e.Kids, genExpr(t, leaves, depth-1))
 	}
 	return e
 }
 
-func (e Expr) build(leaves []strategy.Strategy, pct float64) strategy.Strategy {
+func (e Expr) build(leaves []strategy.Strategy, pct float64, shared map[string]strategy.Strategy) (out strategy.Strategy) {
 	if e.Op == "leaf" {
 		return leaves[e.Leaf]
 	}
+	if shared != nil {
+		key := e.String()
+		if s, ok := shared[key]; ok {
+			return s
+		}
+		defer func() { shared[key] = out }()
+	}
 	kids := make([]strategy.Strategy, len(e.Kids))
 	for i, k := range e.Kids {
-		kids[i] = k.build(leaves, pct)
+		kids[i] = k.build(leaves, pct, shared)
 	}
 	switch e.Op {
 	case "and":
@@ -547,6 +561,7 @@ func exprProp() engine.AnyProp {
 				}
 				c.Closes[i] = x
 			}
+			c.Share = rapid.Bool().Draw(t, "share")
 			c.Expr = genExpr(t, leaves, 3)
 			if c.Expr.Op == "leaf" {
 				c.Expr = Expr{Op: "and", Kids: []Expr{c.Expr, genExpr(t, leaves, 2)}}
@@ -561,7 +576,12 @@ func exprProp() engine.AnyProp {
 				words[i] = acts(c.Words[i])
 				leaves[i] = &stub.Scripted{Label: fmt.Sprint("s", i), Word: words[i]}
 			}
-			got, msg := run(c.Expr.build(leaves, c.Pct), stub.SnapshotsFromCloses(c.Closes), 0)
+			var shared map[string]strategy.Strategy
+			if c.Share {
+				shared = map[string]strategy.Strategy{}
+				o.Class("shared_instances")
+			}
+			got, msg := run(c.Expr.build(leaves, c.Pct, shared), stub.SnapshotsFromCloses(c.Closes), 0)
 			if msg != "" {
 				o.Failf("%s: %s", c.Expr, msg)
 				return o
@@ -581,6 +601,84 @@ func exprProp() engine.AnyProp {
 			o.Class(fmt.Sprintf("depth_%d", c.Expr.depth()))
 			o.Class("root:" + c.Expr.Op)
 			o.Key = fmt.Sprint(c.Expr, c.Words, c.Closes, c.Pct)
+			return o
+		}}
+}
+
+// ---- AllAndStrategies / AllSplitStrategies: every ordered pair of distinct strategies ----
+
+// PairsCase holds k scripted words and closes.
+type PairsCase struct {
+	Words  [][]int   `json:"words"`
+	Closes []float64 `json:"closes"`
+}
+
+func pairsProp() engine.AnyProp {
+	return engine.Prop[PairsCase]{ID: "C07", Subject: "AllAndStrategies+AllSplitStrategies",
+		Gen: func(t *rapid.T) PairsCase {
+			n := rapid.IntRange(0, 16).Draw(t, "n")
+			k := rapid.IntRange(0, 4).Draw(t, "k")
+			c := PairsCase{Closes: make([]float64, n)}
+			for i := 0; i < k; i++ {
+				w := make([]int, n)
+				for j := range w {
+					w[j] = rapid.IntRange(-1, 1).Draw(t, "a")
+				}
+				c.Words = append(c.Words, w)
+			}
+			for i := range c.Closes {
+				c.Closes[i] = 10 + float64(i)
+			}
+			return c
+		},
+		Check: func(c PairsCase) engine.Outcome {
+			var o engine.Outcome
+			k := len(c.Words)
+			words := make([][]strategy.Action, k)
+			leaves := make([]strategy.Strategy, k)
+			for i := range words {
+				words[i] = acts(c.Words[i])
+				leaves[i] = &stub.Scripted{Label: fmt.Sprint("s", i), Word: words[i]}
+			}
+			ands, splits := strategy.AllAndStrategies(leaves), strategy.AllSplitStrategies(leaves)
+			if len(ands) != k*(k-1) && !(k == 0 && len(ands) == 0) || len(splits) != len(ands) {
+				o.Failf("%d strategies: AllAndStrategies returns %d and AllSplitStrategies %d strategies, every ordered pair of distinct ones makes %d", k, len(ands), len(splits), k*(k-1))
+				return o
+			}
+			sn := stub.SnapshotsFromCloses(c.Closes)
+			idx, differ := 0, false
+			for a := 0; a < k; a++ {
+				for b := 0; b < k; b++ {
+					if a == b {
+						continue
+					}
+					wantName := fmt.Sprintf("s%d and s%d", a, b)
+					if ands[idx].Name() != wantName {
+						o.Failf("AllAndStrategies: entry %d is named %q, the pair in product order is %q", idx, ands[idx].Name(), wantName)
+						return o
+					}
+					pair := Expr{Op: "and", Kids: []Expr{{Op: "leaf", Leaf: a}, {Op: "leaf", Leaf: b}}}
+					got, msg := run(ands[idx], sn, 0)
+					if want := pair.model(words, c.Closes, 0); msg != "" || !eq(got, want) {
+						o.Failf("AllAndStrategies entry %q over %v = %v %s, And of the two gives %v", wantName, c.Words, got, msg, want)
+						return o
+					}
+					pair.Op = "split"
+					got, msg = run(splits[idx], sn, 0)
+					want := pair.model(words, c.Closes, 0)
+					if msg != "" || !eq(got, want) {
+						o.Failf("AllSplitStrategies entry %d (%s) over %v = %v %s, Split(buy = s%d, sell = s%d) gives %v", idx, splits[idx].Name(), c.Words, got, msg, a, b, want)
+						return o
+					}
+					rev := Expr{Op: "split", Kids: []Expr{{Op: "leaf", Leaf: b}, {Op: "leaf", Leaf: a}}}
+					if !eq(want, rev.model(words, c.Closes, 0)) {
+						differ = true
+					}
+					idx++
+				}
+			}
+			o.NonTrivial = k >= 3 && differ
+			o.Key = fmt.Sprint(c.Words)
 			return o
 		}}
 }
@@ -642,7 +740,7 @@ func macdRsiProp() engine.AnyProp {
 }
 
 func props() []engine.AnyProp {
-	return []engine.AnyProp{engine.Prop[Case]{ID: "C07", Subject: "Combinators+Decorators", Gen: genCase, Check: check}, exprProp(), macdRsiProp()}
+	return []engine.AnyProp{engine.Prop[Case]{ID: "C07", Subject: "Combinators+Decorators", Gen: genCase, Check: check}, exprProp(), pairsProp(), macdRsiProp()}
 }
 
 func TestC07(t *testing.T) { engine.RunAll(t, props(), false) }
